@@ -50,13 +50,14 @@ def main():
                     if crc == 1:
                         break
                 ok = arc == 0 and base_rc == 0 and mut_rc != 0 and trc == 0
-                dst = os.path.join(HERE, "seeded", "%s-%d" % (prop, k))
+                tag = os.environ.get("SEED_TAG", "")
+                dst = os.path.join(HERE, "seeded", "%s-%s%d" % (prop, tag, k))
                 os.makedirs(dst, exist_ok=True)
                 shutil.copy(patch, os.path.join(dst, "patch.diff"))
                 shutil.copy(demo, os.path.join(dst, "demo.py"))
                 meta = {
                     "property": prop,
-                    "origin": "independent sub-agent given only the property text and a scratch worktree",
+                    "origin": os.environ.get("SEED_ORIGIN", "independent sub-agent given only the property text and a scratch worktree"),
                     "repo_head": head,
                     "needs_to_manifest": open(note).read().strip() if os.path.isfile(note) else "",
                     "confirmed": {"patch_applies": arc == 0, "suite_with_patch": tests_line, "demo_without_patch_exit": base_rc,
@@ -68,7 +69,7 @@ def main():
                 }
                 with open(os.path.join(dst, "meta.json"), "w") as f:
                     json.dump(meta, f, indent=1)
-                print("%s-%d kept=%s detected=%s tier=%s labels=%s" % (prop, k, ok, detected.get("exit_code") == 1, detected.get("tier"), detected.get("labels")), flush=True)
+                print("%s-%s%d kept=%s detected=%s tier=%s labels=%s" % (prop, os.environ.get("SEED_TAG", ""), k, ok, detected.get("exit_code") == 1, detected.get("tier"), detected.get("labels")), flush=True)
             finally:
                 sh("git -C /repo worktree remove --force %s" % wt)
 
